@@ -858,7 +858,7 @@ Section ApplyInv.
     induction groups as [|[path d] rest IH]; intros h merged h' m' Hi Hm Hg H; simpl in H.
     - inversion H; subst. auto.
     - destruct (resolve h merged None path) as [[parent resolved]|] eqn:Er; simpl in H; [|discriminate].
-      destruct (resolve_good _ _ _ _ _ _ Hi Hm I Er) as [Hres Hpar].
+      destruct (resolve_good h path merged None parent resolved Hi Hm I Er) as [Hres Hpar].
       destruct (patch_s cfg n h resolved d) as [[h1 p]|] eqn:Ep; simpl in H; [|discriminate].
       assert (HGf : forall l, length h0 <= l -> GA l) by (intros; left; auto).
       destruct (patch_s_good cfg GA (length h0) Hcu HGf n h resolved d h1 p (proj1 Hi) (Hg _ _ (or_introl eq_refl)) Ep) as [X V].
@@ -866,8 +866,8 @@ Section ApplyInv.
       assert (Hg' : groups_good rest) by (intros p0 d0 Hin; eapply Hg; right; eauto).
       destruct parent as [[par k]|].
       + destruct (store_item h1 par k p) as [h2|] eqn:Es; simpl in H; [|discriminate].
-        eapply IH; eauto. eapply inv_store; eauto.
-      + eapply IH; eauto.
+        apply (IH h2 merged h' m'); auto. eapply (inv_store h1 par k p h2); eauto.
+      + apply (IH h1 p h' m'); auto.
   Qed.
 End ApplyInv.
 
